@@ -389,3 +389,81 @@ func VerifH_AllOfDoc() {
 	}
 	verifrt.Reach("C12.doc.accepted-with-inheritance", inherits)
 }
+
+// VerifH_AllOfThreeBases (C12, base order with more than two names in one rule):
+// bases @a {pa}, @b {pb, qb}, @c {pc} and a type @d that names all three in one
+// allOf rule, in any of the six orders, at the root or in a nested object, declared
+// at any of the four places among them. The inherited properties come first, in the
+// order the bases are named, each marked with its base, then the own property.
+func VerifH_AllOfThreeBases() {
+	perms := [][3]int{{0, 1, 2}, {0, 2, 1}, {1, 0, 2}, {1, 2, 0}, {2, 0, 1}, {2, 1, 0}}
+	perm := perms[verifrt.Choice("perm", 6)]
+	pos := verifrt.Choice("pos", 4)
+	nested := verifrt.Choice("nested", 2) == 1
+	names := []string{"a", "b", "c"}
+	props := [][]string{{"pa"}, {"pb", "qb"}, {"pc"}}
+	bases := []string{
+		"TYPE @a\n{\n  \"pa\": 1\n}\n",
+		"TYPE @b\n{\n  \"pb\": 1,\n  \"qb\": 1\n}\n",
+		"TYPE @c\n{\n  \"pc\": 1\n}\n",
+	}
+	rule := "{allOf: [\"@" + names[perm[0]] + "\", \"@" + names[perm[1]] + "\", \"@" + names[perm[2]] + "\"]}"
+	var d string
+	if nested {
+		d = "TYPE @d\n{\n  \"in\": { // " + rule + "\n    \"own\": 1\n  }\n}\n"
+	} else {
+		d = "TYPE @d\n{ // " + rule + "\n  \"own\": 1\n}\n"
+	}
+	text := "JSIGHT 0.3\n"
+	for i := 0; i < 4; i++ {
+		if i == pos {
+			text += d
+		}
+		if i < 3 {
+			text += bases[i]
+		}
+	}
+	verifrt.Note("doc", text)
+	core, je := verifRun(text)
+	if je != nil {
+		verifrt.Note("diagnostic", je.Msg)
+	}
+	verifrt.Assert("C12.three.accepted", je == nil)
+	if je != nil {
+		return
+	}
+	root := "type @d"
+	var want []string
+	want = append(want, root+" node <root> token=object type=object value=")
+	p := root + "/<root>"
+	if nested {
+		want = append(want, p+" node in token=object type=object value=")
+		p += "/in"
+	}
+	for _, b := range perm {
+		for _, k := range props[b] {
+			want = append(want, p+" node "+k+" token=number type=integer value=1 inheritedFrom=@"+names[b])
+		}
+	}
+	want = append(want, p+" node own token=number type=integer value=1")
+	ut, found := core.catalog.UserTypes.Get("@d")
+	verifrt.Assert("C12.three.type-present", found)
+	if !found {
+		return
+	}
+	var got []string
+	for _, ln := range verifSchemaSig(root, &ut.Schema) {
+		if !strings.Contains(ln, " usesType ") && !strings.Contains(ln, " example=") {
+			got = append(got, ln)
+		}
+	}
+	for _, ln := range got {
+		verifrt.Note("got", ln)
+	}
+	verifrt.Assert("C12.three.node-count", len(got) == len(want))
+	for x := 0; x < len(got) && x < len(want); x++ {
+		verifrt.Assert("C12.three.node", got[x] == want[x])
+	}
+	verifrt.Reach("C12.three.root", !nested)
+	verifrt.Reach("C12.three.nested", nested)
+}
